@@ -1,5 +1,526 @@
 package c15
 
-import "github.com/samsarahq/thunder/verifharness/vlib"
+import (
+	"context"
+	"encoding/json"
+	"errors"
+	"fmt"
+	"io"
+	"strings"
+	"sync"
+	"sync/atomic"
+	"time"
 
-func runM3(run *vlib.Run) {}
+	"github.com/samsarahq/thunder/batch"
+	"github.com/samsarahq/thunder/graphql"
+	"github.com/samsarahq/thunder/graphql/schemabuilder"
+	"github.com/samsarahq/thunder/reactive"
+	"github.com/samsarahq/thunder/verifharness/vlib"
+)
+
+// ---------------------------------------------------------------------------
+// Monitor 3: panic containment. One websocket connection carries healthy
+// subscriptions whose data the harness changes (reactive.Resource) and one
+// request whose resolver panics. Oracle: the panicking request gets exactly
+// one `error` envelope with the generic text, nothing of the panic value
+// reaches the client, the healthy subscriptions keep converging to the
+// current data, `echo` answers, and the id is free for a new subscription.
+
+const secretMarker = "SECRET-9f3a"
+
+type Row struct {
+	Id int64
+	V  int64
+}
+
+type Other struct {
+	Name string
+}
+
+type RowOrOther struct {
+	schemabuilder.Union
+	*Row
+	*Other
+}
+
+type Holder struct{}
+
+type m3State struct {
+	mu      sync.Mutex
+	version int64
+	res     *reactive.Resource
+
+	kind      string // panic value kind
+	placement string
+	armed     int64 // number of computations of the panicking resolver that still panic (-1 = always)
+	entries   int64
+	panics    int64
+}
+
+func (st *m3State) dep(ctx context.Context) int64 {
+	atomic.AddInt64(&st.entries, 1)
+	st.mu.Lock()
+	defer st.mu.Unlock()
+	reactive.AddDependency(ctx, st.res, nil)
+	return st.version
+}
+
+func (st *m3State) bump() int64 {
+	st.mu.Lock()
+	st.version++
+	v := st.version
+	old := st.res
+	st.res = reactive.NewResource()
+	st.mu.Unlock()
+	old.Invalidate()
+	return v
+}
+
+type customPanic struct{ S string }
+
+// maybePanic panics when the resolver at `where` is the armed placement.
+func (st *m3State) maybePanic(where string) {
+	atomic.AddInt64(&st.entries, 1)
+	if where != st.placement {
+		return
+	}
+	for {
+		a := atomic.LoadInt64(&st.armed)
+		if a == 0 {
+			return
+		}
+		if a < 0 || atomic.CompareAndSwapInt64(&st.armed, a, a-1) {
+			break
+		}
+	}
+	atomic.AddInt64(&st.panics, 1)
+	switch st.kind {
+	case "string":
+		panic(secretMarker + " boom")
+	case "error":
+		panic(errors.New(secretMarker + " error value"))
+	case "runtime_nil":
+		var p *Row
+		_ = p.Id
+	case "runtime_index":
+		var a []int
+		i := 3
+		_ = a[i]
+	case "custom":
+		panic(customPanic{S: secretMarker})
+	case "nil":
+		panic(nil)
+	case "client_error": // a panic whose value is a sanitised error must not be trusted either
+		panic(graphql.NewClientError(secretMarker + " client error"))
+	}
+	panic(secretMarker)
+}
+
+func buildM3Schema(st *m3State) *graphql.Schema {
+	s := schemabuilder.NewSchema()
+	q := s.Query()
+	q.FieldFunc("counter", func(ctx context.Context) int64 { return st.dep(ctx) })
+	q.FieldFunc("rows", func(ctx context.Context) []*Row {
+		v := st.dep(ctx)
+		return []*Row{{Id: 1, V: v}, {Id: 2, V: v}, {Id: 3, V: v}}
+	})
+	q.FieldFunc("boom", func(ctx context.Context) string { st.dep(ctx); st.maybePanic("plain_top"); return "ok" })
+	q.FieldFunc("boomExpensive", func(ctx context.Context) string { st.dep(ctx); st.maybePanic("expensive_top"); return "ok" }, schemabuilder.Expensive)
+	q.FieldFunc("holder", func() *Holder { return &Holder{} })
+	q.FieldFunc("uni", func(ctx context.Context) []*RowOrOther {
+		v := st.dep(ctx)
+		return []*RowOrOther{{Row: &Row{Id: 1, V: v}}, {Other: &Other{Name: "o"}}, {Row: &Row{Id: 2, V: v}}}
+	})
+	h := s.Object("Holder", Holder{})
+	h.FieldFunc("boom", func(ctx context.Context) string { st.dep(ctx); st.maybePanic("plain_nested"); return "ok" })
+	h.FieldFunc("boomExpensive", func(ctx context.Context) string { st.dep(ctx); st.maybePanic("expensive_nested"); return "ok" }, schemabuilder.Expensive)
+	row := s.Object("Row", Row{})
+	row.Key("id")
+	row.BatchFieldFunc("boomBatch", func(ctx context.Context, in map[batch.Index]*Row) (map[batch.Index]string, error) {
+		st.maybePanic("batch_nested")
+		out := map[batch.Index]string{}
+		for i := range in {
+			out[i] = "ok"
+		}
+		return out, nil
+	})
+	row.FieldFunc("boomAt", func(r *Row) string {
+		if r.Id == 2 {
+			st.maybePanic("list_element")
+			st.maybePanic("union_member")
+		}
+		return "ok"
+	})
+	s.Object("Other", Other{})
+	m := s.Mutation()
+	m.FieldFunc("boomMut", func() bool { st.maybePanic("mutation"); return true })
+	m.FieldFunc("touch", func() bool { return true })
+	return s.MustBuild()
+}
+
+// chanSocket is a JSONSocket driven frame by frame by the scenario.
+type chanSocket struct {
+	in     chan string
+	mu     sync.Mutex
+	outs   []map[string]interface{}
+	raw    []string
+	writes int64
+}
+
+func (s *chanSocket) ReadJSON(v interface{}) error {
+	f, ok := <-s.in
+	if !ok {
+		return io.EOF
+	}
+	return json.NewDecoder(strings.NewReader(f)).Decode(v)
+}
+
+func (s *chanSocket) WriteJSON(v interface{}) error {
+	b, err := json.Marshal(v)
+	if err != nil {
+		return err
+	}
+	var m map[string]interface{}
+	if err := json.Unmarshal(b, &m); err != nil {
+		return err
+	}
+	s.mu.Lock()
+	s.outs = append(s.outs, m)
+	s.raw = append(s.raw, string(b))
+	s.mu.Unlock()
+	atomic.AddInt64(&s.writes, 1)
+	return nil
+}
+
+func (s *chanSocket) Close() error { return nil }
+
+// fold returns, for id, the client state after merging all `update`
+// envelopes (documented client algorithm), the number of envelopes per type,
+// and the messages of its error envelopes.
+func (s *chanSocket) fold(id string) (state interface{}, counts map[string]int, errMsgs []interface{}, mergeErr error) {
+	s.mu.Lock()
+	outs := append([]map[string]interface{}{}, s.outs...)
+	s.mu.Unlock()
+	counts = map[string]int{}
+	for _, o := range outs {
+		oid, _ := o["id"].(string)
+		if oid != id {
+			continue
+		}
+		t, _ := o["type"].(string)
+		counts[t]++
+		switch t {
+		case "update", "result":
+			st, err := vlib.MergeTS(state, vlib.DeepCopyJSON(o["message"]))
+			if err != nil {
+				return state, counts, errMsgs, err
+			}
+			state = st
+		case "error":
+			errMsgs = append(errMsgs, o["message"])
+		}
+	}
+	return state, counts, errMsgs, nil
+}
+
+type subLogger struct {
+	mu    sync.Mutex
+	ended map[string]int
+}
+
+func (l *subLogger) Subscribe(ctx context.Context, id string, tags map[string]string) {}
+func (l *subLogger) Unsubscribe(ctx context.Context, id string) {
+	l.mu.Lock()
+	l.ended[id]++
+	l.mu.Unlock()
+}
+func (l *subLogger) count(id string) int {
+	l.mu.Lock()
+	defer l.mu.Unlock()
+	return l.ended[id]
+}
+
+type m3Scenario struct {
+	Placement string
+	Kind      string
+	Order     string // panic_first | panic_last | panic_between
+	When      string // initial | rerun
+}
+
+var m3Placements = []string{"plain_top", "plain_nested", "expensive_top", "expensive_nested", "batch_nested", "list_element", "union_member", "mutation"}
+var m3Kinds = []string{"string", "error", "runtime_nil", "runtime_index", "custom", "nil", "client_error"}
+var m3Orders = []string{"panic_last", "panic_first", "panic_between"}
+
+func m3Query(placement string) string {
+	switch placement {
+	case "plain_top":
+		return `{ counter boom }`
+	case "plain_nested":
+		return `{ counter holder { boom } }`
+	case "expensive_top":
+		return `{ counter boomExpensive }`
+	case "expensive_nested":
+		return `{ counter holder { boomExpensive } }`
+	case "batch_nested":
+		return `{ counter rows { id boomBatch } }`
+	case "list_element":
+		return `{ counter rows { id boomAt } }`
+	case "union_member":
+		return `{ counter uni { ... on Row { id boomAt } ... on Other { name } } }`
+	case "mutation":
+		return `mutation { boomMut }`
+	}
+	return `{ counter }`
+}
+
+// m3Expected is the healed result of m3Query at version v.
+func m3Expected(placement string, v int64) interface{} {
+	fv := float64(v)
+	rows := func(field string) []interface{} {
+		var out []interface{}
+		for id := 1; id <= 3; id++ {
+			out = append(out, map[string]interface{}{"id": float64(id), field: "ok"})
+		}
+		return out
+	}
+	switch placement {
+	case "plain_top":
+		return map[string]interface{}{"counter": fv, "boom": "ok"}
+	case "plain_nested":
+		return map[string]interface{}{"counter": fv, "holder": map[string]interface{}{"boom": "ok"}}
+	case "expensive_top":
+		return map[string]interface{}{"counter": fv, "boomExpensive": "ok"}
+	case "expensive_nested":
+		return map[string]interface{}{"counter": fv, "holder": map[string]interface{}{"boomExpensive": "ok"}}
+	case "batch_nested":
+		return map[string]interface{}{"counter": fv, "rows": rows("boomBatch")}
+	case "list_element":
+		return map[string]interface{}{"counter": fv, "rows": rows("boomAt")}
+	case "union_member":
+		return map[string]interface{}{"counter": fv, "uni": []interface{}{
+			map[string]interface{}{"id": 1.0, "boomAt": "ok"}, map[string]interface{}{"name": "o"}, map[string]interface{}{"id": 2.0, "boomAt": "ok"}}}
+	}
+	return nil
+}
+
+func expectedH1(v int64) interface{} { return map[string]interface{}{"counter": float64(v)} }
+func expectedH2(v int64) interface{} {
+	var rows []interface{}
+	for id := 1; id <= 3; id++ {
+		rows = append(rows, map[string]interface{}{"id": float64(id), "v": float64(v)})
+	}
+	return map[string]interface{}{"rows": rows}
+}
+
+func subscribeFrame(id, typ, query string) string {
+	return fmt.Sprintf(`{"id":%q,"type":%q,"message":{"query":%q,"variables":{}}}`, id, typ, query)
+}
+
+func runM3(run *vlib.Run) {
+	var scenarios []m3Scenario
+	for _, pl := range m3Placements {
+		for ki, k := range m3Kinds {
+			for oi, o := range m3Orders {
+				// quick: every placement x kind once, order rotating; thorough: the full product
+				if !run.Thorough() && (ki+oi)%len(m3Orders) != 0 {
+					continue
+				}
+				scenarios = append(scenarios, m3Scenario{Placement: pl, Kind: k, Order: o, When: "initial"})
+				if pl != "mutation" && (run.Thorough() || ki%3 == 0) {
+					scenarios = append(scenarios, m3Scenario{Placement: pl, Kind: k, Order: o, When: "rerun"})
+				}
+			}
+		}
+	}
+	section(run, offM3, len(scenarios), 4, func(k int) { runM3Scenario(run, offM3+k, scenarios[k]) })
+}
+
+func runM3Scenario(run *vlib.Run, caseIdx int, sc m3Scenario) {
+	fmt.Println("CASE", caseIdx, "m3", sc.Placement, sc.Kind, sc.Order, sc.When)
+	run.Case(fmt.Sprintf("m3|%s|%s|%s|%s", sc.Placement, sc.Kind, sc.Order, sc.When), true)
+	run.Count("m3:scenarios", 1)
+	run.Count("m3:placement:"+sc.Placement, 1)
+	run.Count("m3:panic_kind:"+sc.Kind, 1)
+	run.Count("m3:when:"+sc.When, 1)
+
+	st := &m3State{res: reactive.NewResource(), kind: sc.Kind, placement: sc.Placement, version: 1}
+	if sc.When == "initial" {
+		st.armed = -1
+	}
+	schema := buildM3Schema(st)
+	sock := &chanSocket{in: make(chan string, 16)}
+	ctx, cancel := context.WithCancel(context.Background())
+	defer cancel()
+	lg := &subLogger{ended: map[string]int{}}
+	conn := graphql.CreateConnection(ctx, sock, schema, graphql.WithMinRerunInterval(time.Millisecond), graphql.WithSubscriptionLogger(lg))
+	var served int32
+	var escaped *panicRec
+	go func() {
+		defer atomic.StoreInt32(&served, 1)
+		defer func() {
+			if p := recover(); p != nil {
+				escaped = &panicRec{Target: "ServeJSONSocket", Value: fmt.Sprint(p)}
+			}
+		}()
+		conn.ServeJSONSocket()
+	}()
+	activity := func() int64 { return atomic.LoadInt64(&sock.writes) + atomic.LoadInt64(&st.entries) }
+	var steps []string
+	failed := false
+	violate := func(what string, extra map[string]interface{}) {
+		failed = true
+		sock.mu.Lock()
+		raw := append([]string{}, sock.raw...)
+		sock.mu.Unlock()
+		if len(raw) > 60 {
+			raw = raw[len(raw)-60:]
+		}
+		w := map[string]interface{}{"monitor": "3 panic containment", "scenario": sc, "panicking_query": m3Query(sc.Placement), "what": what,
+			"steps": steps, "out_envelopes": raw, "version": atomic.LoadInt64(&st.version), "resolver_panics": atomic.LoadInt64(&st.panics)}
+		for k, v := range extra {
+			w[k] = v
+		}
+		run.Violation(caseIdx, "", w)
+	}
+	// wait waits for cond; false = scenario cannot continue
+	wait := func(what string, cond func() bool) bool {
+		steps = append(steps, "wait: "+what)
+		switch vlib.WaitCond(cond, activity, 2*time.Second, 12*time.Second) {
+		case vlib.Reached:
+			return true
+		case vlib.QuiescentNot:
+			violate("connection went quiet before: "+what, map[string]interface{}{"stacks": thunderStacks(nil)})
+		default:
+			run.Inconclusive(fmt.Sprintf("m3 case %d: still busy while waiting for: %s", caseIdx, what))
+			failed = true
+		}
+		return false
+	}
+	send := func(f string) { steps = append(steps, "send: "+f); sock.in <- f }
+	converged := func(id string, want interface{}) func() bool {
+		return func() bool {
+			state, _, _, err := sock.fold(id)
+			return err == nil && vlib.Canon(state) == vlib.Canon(want)
+		}
+	}
+	healthy := func(v int64) bool {
+		return wait(fmt.Sprintf("h1 and h2 show version %d", v), func() bool {
+			return converged("h1", expectedH1(v))() && converged("h2", expectedH2(v))()
+		})
+	}
+	subH := func(which int) {
+		if which == 1 {
+			send(subscribeFrame("h1", "subscribe", `{ counter }`))
+		} else {
+			send(subscribeFrame("h2", "subscribe", `{ rows { id v } }`))
+		}
+	}
+	typ := "subscribe"
+	if sc.Placement == "mutation" {
+		typ = "mutate"
+	}
+	subP := func() { send(subscribeFrame("p", typ, m3Query(sc.Placement))) }
+	switch sc.Order {
+	case "panic_first":
+		subP()
+		subH(1)
+		subH(2)
+	case "panic_between":
+		subH(1)
+		subP()
+		subH(2)
+	default:
+		subH(1)
+		subH(2)
+		subP()
+	}
+	v := int64(1)
+	ok := healthy(v)
+	errorsOf := func(id string) (int, int, []interface{}) {
+		_, counts, msgs, _ := sock.fold(id)
+		return counts["error"], counts["update"] + counts["result"], msgs
+	}
+	if ok && sc.When == "initial" {
+		ok = wait("error envelope for p", func() bool { n, _, _ := errorsOf("p"); return n >= 1 })
+	}
+	if ok && sc.When == "rerun" {
+		ok = wait("p shows its healthy initial result", converged("p", m3Expected(sc.Placement, v)))
+		if ok {
+			atomic.StoreInt64(&st.armed, 2) // the next two computations of the resolver panic, then it heals
+		}
+	}
+	// data changes while the failed / failing request is around
+	for round := 0; ok && round < 2; round++ {
+		v = st.bump()
+		steps = append(steps, fmt.Sprintf("bump to version %d", v))
+		ok = healthy(v)
+	}
+	if ok && sc.When == "rerun" {
+		ok = wait("p converges after its resolver stopped panicking", converged("p", m3Expected(sc.Placement, v)))
+		if ok && atomic.LoadInt64(&st.panics) == 0 {
+			run.Inconclusive(fmt.Sprintf("m3 case %d: the armed resolver was never re-entered", caseIdx))
+		}
+	}
+	if ok {
+		send(`{"id":"ping","type":"echo"}`)
+		ok = wait("echo answered", func() bool { _, c, _, _ := sock.fold("ping"); return c["echo"] >= 1 })
+	}
+	if ok && sc.When == "initial" {
+		// the id must become free again (thunder tears the failed request down
+		// asynchronously; the harness waits for that, re-use races are property
+		// C17's business): a healthy subscription under the same id works
+		ok = wait("failed request p is torn down", func() bool { return lg.count("p") >= 1 })
+	}
+	if ok && sc.When == "initial" {
+		atomic.StoreInt64(&st.armed, 0)
+		send(subscribeFrame("p", "subscribe", `{ counter }`))
+		ok = wait("re-subscription under id p delivers data", func() bool {
+			_, upd, _ := errorsOf("p")
+			return upd >= 1
+		})
+		if ok {
+			v = st.bump()
+			steps = append(steps, fmt.Sprintf("bump to version %d", v))
+			ok = healthy(v) && wait("re-subscribed p follows", converged("p", expectedH1(v)))
+		}
+	}
+	close(sock.in)
+	if !wait("ServeJSONSocket returns after the socket closed", func() bool { return atomic.LoadInt32(&served) == 1 }) {
+		return
+	}
+	if escaped != nil {
+		violate("a panic escaped ServeJSONSocket", map[string]interface{}{"panic": escaped.Value})
+		return
+	}
+	if failed {
+		return
+	}
+	// final accounting
+	nerr, _, msgs := errorsOf("p")
+	if sc.When == "initial" {
+		if nerr != 1 {
+			violate(fmt.Sprintf("request p got %d error envelopes, want exactly 1", nerr), nil)
+		} else if s, _ := msgs[0].(string); s != "Internal server error" {
+			violate("the error envelope of the panicking request does not carry the generic message", map[string]interface{}{"message": msgs[0], "expected": "Internal server error"})
+		}
+	} else if nerr != 0 {
+		violate(fmt.Sprintf("subscription p got %d error envelopes although only re-computations panicked (thunder retries those)", nerr), nil)
+	}
+	for _, id := range []string{"h1", "h2", "ping"} {
+		if n, _, _ := errorsOf(id); n != 0 {
+			violate("an unrelated request got an error envelope: "+id, nil)
+		}
+	}
+	sock.mu.Lock()
+	raw := strings.Join(sock.raw, "\n")
+	sock.mu.Unlock()
+	for _, leak := range []string{secretMarker, "goroutine ", "runtime error", "graphql: panic"} {
+		if strings.Contains(raw, leak) {
+			violate("panic details reached the client: "+leak, nil)
+			break
+		}
+	}
+	if run.WantSample() && caseIdx%9 == 0 {
+		run.Sample(map[string]interface{}{"monitor": 3, "scenario": sc, "query": m3Query(sc.Placement), "steps": len(steps), "resolver_panics": atomic.LoadInt64(&st.panics)})
+	}
+}
